@@ -268,6 +268,15 @@ impl NetNode {
         }
     }
 
+    pub fn cfg_ncfg(&self) -> NodeCfg {
+        NodeCfg {
+            gp: self.cfg.consensus.genesis_period,
+            heartbeat: self.cfg.consensus.heartbeat_interval,
+            social_stake: self.cfg.consensus.default_social_stake,
+            loading_completed: self.cfg.blockchain.initial_loading_completed,
+        }
+    }
+
     /// Raw access to the routing thread's internal-event handler (for use inside `catch`).
     pub async fn rt_process(&mut self, ev: RoutingEvent) -> Option<()> {
         self.rt.process_event(ev).await
